@@ -80,7 +80,7 @@ CFG = {
         "C18_original_condition_incomplete_seq", "C18_original_condition_incomplete_par",
         "specKeep_bounds", "specKeep_tags", "specKeep_all", "C18_provided_keeps",
         "C18_need_exact", "C18_roots_spec", "C18_observers_schedule_independent", "C18_filter_observers",
-        "C18_geom_no_dropped_point",
+        "C18_geom_no_dropped_point", "C18_cancel_no_partial_result",
     ]],
     "trusted_base": [
         "Lean 4.33.0 kernel; axioms of every theorem printed by #print axioms must be within {propext, Classical.choice, Quot.sound}",
